@@ -109,14 +109,31 @@ struct ReadableFile {
 
 impl ReadableFile {
     fn len(&self) -> u64 {
-        self.content.len() as u64 - self.position
+        (self.content.len() as u64).saturating_sub(self.position)
     }
+}
+
+fn offset_position(base: u64, offset: i64) -> std::io::Result<u64> {
+    let position = if offset >= 0 {
+        base.checked_add(offset as u64)
+    } else {
+        base.checked_sub(offset.unsigned_abs())
+    };
+    position.ok_or_else(|| {
+        std::io::Error::new(
+            std::io::ErrorKind::InvalidInput,
+            "invalid seek to a negative or overflowing position",
+        )
+    })
 }
 
 impl Read for ReadableFile {
     fn read(&mut self, buf: &mut [u8]) -> std::io::Result<usize> {
-        let amt = cmp::min(buf.len(), self.len() as usize);
+        let amt = cmp::min(buf.len() as u64, self.len()) as usize;
 
+        if amt == 0 {
+            return Ok(0);
+        }
         if amt == 1 {
             buf[0] = self.content[self.position as usize];
         } else {
@@ -131,11 +148,11 @@ impl Read for ReadableFile {
 
 impl Seek for ReadableFile {
     fn seek(&mut self, pos: SeekFrom) -> std::io::Result<u64> {
-        match pos {
-            SeekFrom::Start(offset) => self.position = offset,
-            SeekFrom::Current(offset) => self.position = (self.position as i64 + offset) as u64,
-            SeekFrom::End(offset) => self.position = (self.content.len() as i64 + offset) as u64,
-        }
+        self.position = match pos {
+            SeekFrom::Start(offset) => offset,
+            SeekFrom::Current(offset) => offset_position(self.position, offset)?,
+            SeekFrom::End(offset) => offset_position(self.content.len() as u64, offset)?,
+        };
         Ok(self.position)
     }
 }
